@@ -73,7 +73,8 @@ def counts_lemma(dag):
     """C13: for every op the advertised num_tasks equals the length of its task iterable; tasks are pairwise distinct"""
     total = 0
     for opname, op in G.all_ops(dag):
-        tasks = [tuple(sx.conc(c) for c in t) for t in op.pipeline.mappable] if op.pipeline.mappable is not None else []
+        raw = list(op.pipeline.mappable) if op.pipeline.mappable is not None else []
+        tasks = [tuple(sx.conc(c) for c in t) if isinstance(t, (list, tuple)) else id(t) for t in raw]
         nt = op.num_tasks
         sx.require(nt == len(tasks), "num_tasks-differs-from-number-of-tasks", f"{opname}: num_tasks={nt} but {len(tasks)} tasks {tasks[:6]}")
         sx.require(len(set(tasks)) == len(tasks), "duplicate-task", f"{opname}: {tasks}")
